@@ -14,6 +14,7 @@ TRUSTED = c01.TRUSTED
 ASSUMPTIONS = c01.ASSUMPTIONS + ["distinct 4-digit tags, values of 0..992 characters"]
 
 cfg_of, cfg_id, model_line, model_obs = c01.cfg_of, c01.cfg_id, c01.model_line, c01.model_obs
+PKG_CARRIERS = (48, 62, 123, 124, 125)
 
 
 def nopds(cfg):
@@ -31,6 +32,8 @@ def impl_eval(case):
     codec, hexbm = case['codec'], bool(case['hex'])
     pds = sorted((int(k[3:]), v) for k, v in msg.items() if k.startswith('PDS'))      # 'PDS023' is tag 23 too
     carriers = sorted(int(k) for k, fc in cfg.items() if fc.get('field_processor') == 'PDS')
+    if case['cfg'] == 'pkg':
+        carriers = list(PKG_CARRIERS)       # the documented carriers of the packaged configuration, written out here
     want = iu.ref_pds_chunks(pds)
     o1, data, _ = iu.obs_dumps(lambda: iso8583.dumps(dict(msg), encoding=codec, iso_config=cfg, hex_bitmap=hexbm))
     if case.get('oddkeys'):
@@ -159,6 +162,18 @@ def explore(run, tier):
         ents = [(100 + i, 'x' * 992) for i in range(k)]
         cases.append(mk(rng, 'pkg', 'latin_1', ents))
         cases.append(mk(rng, 'pkg', 'cp500', ents + [(9000, '')]))
+    # caller configurations with MORE carriers than the packaged five (the packaged one plus elements 112 / 110 and 112 as
+    # further carriers): sets needing 1 .. all of them, and one more
+    for extra_bits in ((112,), (110, 112), (105, 110, 112)):
+        cfgx = copy.deepcopy(iu.pkg_config())
+        for xb in extra_bits:
+            cfgx[str(xb)] = {'field_name': f'extra carrier {xb}', 'field_type': 'LLLVAR', 'field_length': 0,
+                             'field_processor': 'PDS'}
+        ncar = 5 + len(extra_bits)
+        for k in range(1, ncar + 2):
+            ents = [(100 + i, 'x' * 992) for i in range(k)]
+            cases.append(mk(rng, cfgx, codecs3[k % 3], ents))
+        cases.append(mk(rng, cfgx, 'latin_1', [(7, 'seven'), (23, 'A' * 500), (158, 'B' * 700), (9999, '')]))
     # PDS together with other elements and with generated carrier sets
     for _ in range(300 if tier == 'quick' else 5000):
         cfg = rng.choice(['pkg', 'gen'])
